@@ -26,6 +26,7 @@ def reach(prog, start):
 
 def check(prog, run):
     check_named_type_identity(prog, run, "P10")
+    check_deprecation_table(prog, run, "P11")
     m = prog.module(D)
     cm = prog.module(CH)
 
@@ -456,3 +457,95 @@ def check_named_type_identity(prog, run, rule_id):
                                    "position retyped to a different named type is reported as a compatible change"
                                    % (fname, sorted(map(str, got)), k1, k2, "equal" if same else "different", same))
                         break
+
+
+def check_deprecation_table(prog, run, rule_id):
+    """Deprecation changes of fields and enum values, decided per (old deprecated, new deprecated, reasons differ)."""
+    D_ = "py_gql.schema.differ"
+    r = run.rule(rule_id, "wherever a differ instantiates the three deprecation changes of one member kind (X-Deprecated, X-DeprecationRemoved, "
+                          "X-DeprecationReasonChanged), the statements doing so are decided for every consistent combination of (old member "
+                          "deprecated, new member deprecated, the two reasons differ) with every other test left open: deprecated on both sides "
+                          "with different reasons instantiates exactly ReasonChanged on every execution, deprecated only before exactly "
+                          "DeprecationRemoved, only after exactly Deprecated, and otherwise none of the three - whatever the reasons' "
+                          "truthiness (an empty reason is a reason)", 10)
+    found = 0
+    for f in [x for x in prog.all_funcs() if x.module.name == D_]:
+        calls = [n for n in own_nodes(f.node) if isinstance(n, ast.Call) and isinstance(n.func, ast.Name)
+                 and n.func.id.endswith(("Deprecated", "DeprecationRemoved", "DeprecationReasonChanged"))]
+        if not calls:
+            continue
+        run.looked_at(f)
+        kinds = {}
+        for c in calls:
+            for suf in ("DeprecationReasonChanged", "DeprecationRemoved", "Deprecated"):
+                if c.func.id.endswith(suf):
+                    kinds.setdefault(c.func.id[:-len(suf)], {}).setdefault(suf, []).append(c)
+                    break
+        for member, by in sorted(kinds.items()):
+            if set(by) != {"DeprecationReasonChanged", "DeprecationRemoved", "Deprecated"}:
+                raise AnalysisError("C20.%s: %s instantiates only %s of the %s deprecation changes" % (rule_id, f.qualname, sorted(by), member))
+            mine = [c for cs in by.values() for c in cs]
+            ref = by["DeprecationReasonChanged"][0]
+            if len(ref.args) < 2:
+                raise AnalysisError("C20.%s: %s: cannot read the old/new members from %s" % (rule_id, f.qualname, ast.unparse(ref)))
+            o, nw = ast.unparse(ref.args[-2]), ast.unparse(ref.args[-1])
+            # innermost statement list holding all of them
+            best = None
+            for node in [f.node] + list(own_nodes(f.node)):
+                for field in ("body", "orelse", "finalbody"):
+                    lst = getattr(node, field, None)
+                    if isinstance(lst, list) and lst and isinstance(lst[0], ast.stmt):
+                        inside = {id(x) for st in lst for x in ast.walk(st)}
+                        if all(id(c) in inside for c in mine) and (best is None or len(inside) < best[0]):
+                            best = (len(inside), lst)
+            if best is None:
+                raise AnalysisError("C20.%s: %s: no statement list holds the %s deprecation changes" % (rule_id, f.qualname, member))
+            stmts = list(best[1])
+            # statements before the first one that reads a deprecation attribute pair the members up (or give up on the pair): not part of the table
+            while stmts and "deprecat" not in ast.unparse(stmts[0]).lower():
+                stmts.pop(0)
+            body = boolx.body_function(stmts)
+            found += 1
+            for od, nd, differ, want in ((True, True, True, "DeprecationReasonChanged"), (True, True, False, None),
+                                         (True, False, True, "DeprecationRemoved"), (False, True, True, "Deprecated"),
+                                         (False, False, False, None)):
+                def decide(t, od=od, nd=nd, differ=differ):
+                    t = t.strip()
+                    if t.startswith("(") and t.endswith(")") and t.count("(") == 1:
+                        t = t[1:-1]
+                    if t == o + ".deprecated":
+                        return od
+                    if t == nw + ".deprecated":
+                        return nd
+                    a, b = o + ".deprecation_reason", nw + ".deprecation_reason"
+                    if t in (a + " == " + b, b + " == " + a):
+                        return not differ
+                    if t in (a + " != " + b, b + " != " + a):
+                        return differ
+                    for side, dep in ((a, od), (b, nd)):
+                        if t == side + " is None":
+                            return not dep
+                        if t == side + " is not None":
+                            return dep
+                        if t == side and not dep:
+                            return False
+                    return None
+                try:
+                    _ev, exits = boolx.walk_under(body, decide)
+                except ValueError as e:
+                    raise AnalysisError("C20.%s: %s" % (rule_id, e))
+                r.instance("%s %s (old deprecated %s, new deprecated %s, reasons differ %s) -> %s" % (f.qualname, member, od, nd, differ, want))
+                ids = {id(c): c for c in mine}
+                for kind, st, env in exits:
+                    if kind == "raise":
+                        continue
+                    made = sorted({ids[id(c)].func.id[len(member):] for c in env.get(boolx.CALLS, ()) if id(c) in ids})
+                    if made != ([want] if want else []):
+                        run.report(r, "%s:%s:deprecation(%s,%s,%s)" % (D_, f.qualname, od, nd, "differ" if differ else "same"), f.where(),
+                                   "with the old %s %sdeprecated, the new one %sdeprecated and %s reasons an execution of %s reports %s "
+                                   "(expected %s): a deprecation change of a member is lost or misreported"
+                                   % (member.lower() or "member", "" if od else "not ", "" if nd else "not ",
+                                      "different" if differ else "equal", f.qualname, made or "nothing", want or "nothing"))
+                        break
+    if found < 2:
+        raise AnalysisError("C20.%s: only %d deprecation tables found (expected fields and enum values)" % (rule_id, found))
